@@ -132,6 +132,10 @@ def run(tier: str) -> int:
     return res.finish()
 
 
+GETTERS = {'C11_homog': LC, 'C11_price_lc': LC, 'C11_price_npv': lambda r_: r_['out']['npv'], 'C11_null_addon': ALL, 'C11_zero_itc': ALL,
+           'C11_zero_grant': ALL, 'C11_eff': lambda r_: r_['out']['lcoh']}
+
+
 def replay(path: str) -> int:
-    print(open(path).read()[:3000])
-    return 0
+    from .rel import replay_ladder
+    return replay_ladder('C11', path, GETTERS)
